@@ -98,6 +98,10 @@ pub async fn handle_notify_get_or_head(
         return Err(req)
     }
 
+    // Subscribe before checking the version so we cannot miss a
+    // notification sent between the check and the subscription.
+    let mut notify = notify.subscribe();
+
     let wait = match need_wait(&req, history) {
         Ok(wait) => wait,
         Err(resp) => return Ok(resp),
@@ -106,7 +110,7 @@ pub async fn handle_notify_get_or_head(
     #[cfg(routinator_verif)]
     crate::verif::point("http.notify.wait");
     if wait {
-        notify.subscribe().recv().await;
+        notify.recv().await;
     }
 
     if req.is_head() {
